@@ -1017,9 +1017,8 @@ func main() {
 	concSites := map[string]bool{}
 	if fam := os.Getenv("VERIF_C01_FAM"); fam != "" && !strings.Contains(fam, "h") {
 		// restricted development run
-	} else if c.Expired() {
-		c.NotExhaustive("family (h) concurrent parsing not run: budget used up")
 	} else {
+		// cheap (a few seconds): always run, whatever is left of the budget
 		pool.Run(concShards(quick), pool.Options{HangTimeout: 10 * time.Minute, FreshProcess: true}, func(si int, rb json.RawMessage) {
 			var r concRec
 			if json.Unmarshal(rb, &r) != nil {
